@@ -955,7 +955,41 @@ def _work_cache_crash(item, seed, tier):
     return acc
 
 
+def case_locale(p):
+    """The process locale as an environment: the same round trips in a child interpreter whose locale encoding is ASCII (LC_ALL=C, no UTF-8
+    mode, no locale coercion - a bare container, a systemd unit without LANG).  What is read back must not depend on it.
+    p: inner = {"case": <name>, "params": {...}}"""
+    import subprocess
+    import sys
+
+    inner = p["inner"]
+    code = (
+        "import sys, json\n"
+        "sys.path[:0] = [%r, '/verif']\n"
+        "import logging; logging.disable(logging.CRITICAL)\n"
+        "from vt import core\n"
+        "from vt.props import c20\n"
+        "q = json.loads(sys.argv[1])\n"
+        "v = c20.CASES[q['case']](core.unjson(q['params']))\n"
+        "print('RESULT ' + json.dumps(core.jsonable(v)))\n"
+    ) % _repo_root()
+    env = {k: v for k, v in os.environ.items() if not k.startswith("LC_") and k not in ("LANG", "LANGUAGE", "PYTHONUTF8", "PYTHONIOENCODING")}
+    env.update(LC_ALL="C", PYTHONUTF8="0", PYTHONCOERCECLOCALE="0", PYTHONHASHSEED="0", PYTHONDONTWRITEBYTECODE="1")
+    r = subprocess.run([sys.executable, "-c", code, json.dumps(core.jsonable(inner))], capture_output=True, text=True, env=env, timeout=300, errors="replace")
+    line = next((ln for ln in r.stdout.splitlines() if ln.startswith("RESULT ")), None)
+    if line is None:
+        return [("locale-ascii:round-trip-crashes", {"inner": inner["case"], "stderr_tail": r.stderr[-600:]})]
+    return [("locale-ascii:" + sig, det) for sig, det in core.unjson(json.loads(line[7:]))]
+
+
+def _repo_root():
+    import aiohomekit
+
+    return os.path.dirname(os.path.dirname(os.path.abspath(aiohomekit.__file__)))
+
+
 CASES = {
+    "locale": case_locale,
     "crash": case_crash,
     "recover": case_recover,
     "pairings": case_pairings,
@@ -972,7 +1006,9 @@ def _work_list(item, seed, tier):
     fn = CASES[name]
     for p in plist:
         v = fn(p)
-        if name == "pairings":
+        if name == "locale":
+            nontrivial, syms = True, (name, "locale:" + p["inner"]["case"])
+        elif name == "pairings":
             nontrivial, syms = bool(p["members"]), (name,) + tuple(f"pairings:{m}" for m in p["members"])
         else:
             nontrivial, syms = p["db"] != "syn:struct:no-accessories", (name, "database:" + p["db"].split(":")[0], f"database:{p['transport']}")
@@ -1066,6 +1102,18 @@ def run(ctx):
     work += _chunks("database", dl, 4 if not quick else 6)
     ctx.bounds["database"] = dict(fixtures=usable, synthetic=len(syn), numbers="c# x s# x broadcast key x transport cross product on one synthetic map; rotating elsewhere" + ("" if quick else "; every fixture with 5 number triples x 3 transports"))
 
+    # ---- (2c) the same round trips in a child interpreter with an ASCII locale
+    loc = [{"inner": {"case": "pairings", "params": {"members": m, "seed": seed}}} for m in (["ip-unicode", "coap-unicode", "ip-escapes"], ["ip", "ble"], names)]
+    uni_fix = [f for f in usable if any(ord(ch) > 127 for ch in open(os.path.join(_repo(), FIXTURES, f), encoding="utf-8").read())][: 2 if quick else 8]
+    for f in uni_fix + usable[:1]:
+        for t in ("ip", "ble", "coap")[: 1 if quick else 3]:
+            loc.append({"inner": {"case": "database", "params": {"db": f"fixture:{f}", "transport": t, "config_num": 3, "state_num": 9, "bkey": bk, "seed": seed}}})
+    fl = _cache_files(seed)
+    for name in ("unicode", "two", "tiny"):
+        loc.append({"inner": {"case": "cache", "params": {"file": name, "kind": "prefix", "pos": len(fl[name][0]), "seed": seed}}})
+    work += [("locale", [q]) for q in loc]
+    ctx.bounds["locale"] = dict(child_environment="LC_ALL=C PYTHONUTF8=0 PYTHONCOERCECLOCALE=0 (locale encoding ASCII)", cases=len(loc), fixtures_with_non_ascii_text=uni_fix)
+
     # ---- (3) cache corruption
     files = _cache_files(seed)
     cl = []
@@ -1085,7 +1133,7 @@ def run(ctx):
                                cache_save_crash_scenarios=sorted(CACHE_SCENARIOS))
 
     # heavy chunks first
-    order = {"database": 0, "crash": 1, "cache": 2, "cache_crash": 3, "pairings": 4}
+    order = {"database": 0, "crash": 1, "cache": 2, "cache_crash": 3, "pairings": 4, "locale": 1}
     work.sort(key=lambda w: order[w[0]])
     ctx.pmap(_work, work)
     ctx.exhaustive = True
